@@ -263,6 +263,24 @@ class Engine:
                 outcomes.append(Outcome(list(self._pc), "raise", exc=e.cls, value=e))
         return outcomes
 
+    def explore_native(self, pyfunc, assumptions: List[Any] = ()) -> List[Outcome]:
+        """same path exploration for a native Python function pyfunc(engine) that forks through engine.branch()/truth()"""
+        outcomes: List[Outcome] = []
+        worklist: List[List[bool]] = [[]]
+        while worklist:
+            if len(outcomes) >= self.max_paths:
+                raise PathLimit(f"more than {self.max_paths} paths")
+            self._decisions = worklist.pop()
+            self._pos = 0
+            self._pc = list(assumptions)
+            self._worklist = worklist
+            try:
+                v = pyfunc(self)
+                outcomes.append(Outcome(list(self._pc), "return", value=v))
+            except PyRaise as e:
+                outcomes.append(Outcome(list(self._pc), "raise", exc=e.cls, value=e))
+        return outcomes
+
     def branch(self, cond) -> bool:
         """fork on a z3 Bool"""
         cond = z3.simplify(cond)
